@@ -230,3 +230,317 @@ def engine_c(rep, M, harness_timeout):
     results = K.classify(data, out)
     D.collect(rep, ids, results, out, crate_dir, harness_timeout, 2, extra_lib=lib, deps="")
     rep.bounds["engine_C"] = {"M": M, "source": "src/parser/mod.rs `let value_ranges = {...};` (text-extracted on every run)"}
+
+
+# ----------------------------------------------------------------------------------
+# Engine C2: the index arithmetic of the table modes with SYMBOLIC run layouts
+#
+# The with-holes table functions compute `rank(v) = v - (run_start - names_before_run)` in
+# wrapping arithmetic of the repr type and cast the result through the "unsigned companion"
+# type.  The fragments that make up this computation are cut out of the current sources on
+# every run:
+#   * the per-run table entry           src/feature/table_range.rs   quote! {(#b1 ..= #e1, <ENTRY>)}
+#   * the running offset                src/feature/table_range.rs   ofs += <INC>;
+#   * every index expression            src/feature/as_str_fn.rs, range_fn.rs   `... .wrapping_sub(..) as #repr_unsigned as usize`
+#   * the repr -> companion table       src/parser/mod.rs            "u16" | "i16" => (2, "u16")
+# and assembled into straight-line Rust in which the run layout (starts, ends, number of
+# runs) is symbolic.  A counterexample is a LAYOUT, i.e. a declaration; it is confirmed by
+# really deriving an enum with that layout and calling the derived function natively.
+
+C2_TEMPLATE = """
+pub mod c2_@R@ {
+    #[cfg(not(kani))]
+    use crate::kani;
+    pub type R = @R@;
+    pub type U = @U@;
+    pub const M: usize = @M@;
+    pub const LO: i64 = @LO@;
+    pub const HI: i64 = @HI@;
+
+    /// table entry for a run starting at b (literal `{b0}{repr}`) with `ofs` names before it
+    /// (literal `{ofs}{repr}`, wrapped to the repr like an out-of-range literal)
+    #[inline(always)]
+    fn entry(b0: i64, ofs: i64) -> R {
+        let b1: R = b0 as R;
+        let o1: R = ofs as R;
+        @ENTRY@
+    }
+@IDXFNS@
+    #[cfg_attr(kani, kani::proof)]
+    #[cfg_attr(kani, kani::unwind(@UNWIND@))]
+    pub fn h_layout() {
+        layout::<@MAXN@>()
+    }
+    /// same query restricted to at most 300 variants: counterexamples stay small enough to be
+    /// confirmed quickly by really deriving them
+    #[cfg_attr(kani, kani::proof)]
+    #[cfg_attr(kani, kani::unwind(@UNWIND@))]
+    pub fn h_layout_small() {
+        layout::<300>()
+    }
+    fn layout<const MAXN: i64>() {
+        let m: usize = kani::any();
+        kani::assume(m >= 1 && m <= M);
+        let mut b = [0i64; M];
+        let mut e = [0i64; M];
+        let mut before = [0i64; M];
+        let mut ofs: i64 = 0;
+        let mut j = 0;
+        while j < m {
+            let b0: i64 = kani::any();
+            let e0: i64 = kani::any();
+            kani::assume(LO <= b0 && b0 <= e0 && e0 <= HI);
+            // at most MAXN variants in total, so no run is longer than that
+            kani::assume((e0 as i128) - (b0 as i128) < MAXN as i128);
+            if j > 0 {
+                kani::assume((b0 as i128) > (e[j - 1] as i128) + 1); // a hole between two runs
+            }
+            b[j] = b0;
+            e[j] = e0;
+            before[j] = ofs;
+            {
+                let (b0, e0) = (&b0, &e0);
+                ofs += @INC@;
+            }
+            kani::assume(ofs <= MAXN); // number of variants (documented limit 65534)
+            j += 1;
+        }
+        let j: usize = kani::any();
+        kani::assume(j < m);
+        let x: i64 = kani::any();
+        kani::assume(b[j] <= x && x <= e[j]);
+        let rank = (before[j] + (x - b[j])) as usize;
+        let min = b[0] as R;
+        let t1 = entry(b[j], before[j]);
+        kani::cover!(m == M, "maximal number of runs");
+        kani::cover!(rank > (R::MAX as u128 / 2) as usize || rank > 200, "large index");
+        kani::cover!(m > 1 && b[1] < 0, "negative later run");
+@ASSERTS@
+    }
+}
+"""
+
+
+def _companions():
+    src = open(os.path.join(REPO, "src/parser/mod.rs")).read()
+    out = {}
+    for m in re.finditer(r'((?:"\w+"\s*\|\s*)*"\w+")\s*=>\s*\(\s*\d+\s*,\s*"(\w+)"\s*\)', src):
+        for r in re.findall(r'"(\w+)"', m.group(1)):
+            out[r] = m.group(2)
+    return out
+
+
+def _rustify(expr, holes):
+    """turn a quote! fragment into plain Rust over (x: R, min: R, t1: R)"""
+    s = expr
+    s = s.replace("#repr_unsigned", "U").replace("#repr", "R")
+    s = re.sub(r"Self::#ident_min as R", "min", s)
+    s = re.sub(r"\b(self|start|end) as R", "x", s)
+    s = re.sub(r"\b(start_repr|end_repr)\b", "x", s)
+    s = re.sub(r"\b[tr]\.1\b", "t1", s)
+    return s
+
+
+def extract_c2():
+    """-> dict(entry, inc, idx=[(file, line, expr, holes)]) or None"""
+    try:
+        tr = open(os.path.join(REPO, "src/feature/table_range.rs")).read()
+    except OSError:
+        return None
+    m = re.search(r"quote!\s*\{\s*\(#b1\s*\.\.=\s*#e1\s*,\s*(.+?)\)\s*\}\s*\n\s*\}\s*else", tr, re.S)
+    inc = re.search(r"\bofs\s*\+=\s*([^;]+);", tr)
+    if not m or not inc or m.group(1).strip() == "()":
+        return None
+    entry = m.group(1).strip().replace("#b1", "b1").replace("#o1", "o1").replace("#e1", "(e0 as R)")
+    idx = []
+    for fn in ("src/feature/as_str_fn.rs", "src/feature/range_fn.rs"):
+        try:
+            lines = open(os.path.join(REPO, fn)).read().split("\n")
+        except OSError:
+            continue
+        for ln, l in enumerate(lines, 1):
+            if "wrapping_sub" not in l or "usize" not in l:
+                continue
+            # the expression: from the operand before .wrapping_sub to `usize`
+            mm = re.search(r"((?:\([^()]*\)|\w+)\.wrapping_sub\((?:[^()]|\([^()]*\))*\)(?:\s+as\s+[#\w]+)+)", l)
+            if not mm:
+                continue
+            expr = mm.group(1)
+            holes = bool(re.search(r"\b[tr]\.1\b", expr))
+            idx.append((fn, ln, expr, holes))
+    if not idx:
+        return None
+    return {"entry": entry, "inc": inc.group(1).strip(), "idx": idx}
+
+
+def engine_c2(rep, files, M, harness_timeout, reprs=None):
+    """files: which index expressions to include ('as_str_fn', 'range_fn')"""
+    from . import corpus as C
+    from . import replay as RP
+    prop = rep.prop
+    ex = extract_c2()
+    comp = _companions()
+    if ex is None or not comp:
+        rep.skipped.append({"module": "engine_c2", "what": "index-arithmetic fragments not found in the sources (refactored): layout lemma skipped"})
+        return
+    idx = [t for t in ex["idx"] if any(f in t[0] for f in files)]
+    if not idx:
+        rep.skipped.append({"module": "engine_c2", "what": "no index expression found for %s: layout lemma skipped" % files})
+        return
+    reprs = reprs or list(C.REPRS)
+    mods = []
+    fns = []
+    asserts = []
+    for k, (fn, ln, expr, holes) in enumerate(idx):
+        body = _rustify(expr, holes)
+        fns.append("    /// %s:%d   %s\n    #[inline(always)]\n    fn idx_%d(x: R, min: R, t1: R) -> usize {\n        %s\n    }" % (fn, ln, expr.replace("\n", " "), k, body))
+        if holes:
+            asserts.append('        if m >= 2 {\n            assert!(idx_%d(x as R, min, t1) == rank, "%s:%d: table index of a variant in a with-holes enum is not its rank");\n        }' % (k, fn, ln))
+        else:
+            asserts.append('        if m == 1 {\n            assert!(idx_%d(x as R, min, t1) == rank, "%s:%d: table index of a variant in a gapless enum is not its rank");\n        }' % (k, fn, ln))
+    lib = ""
+    for r in reprs:
+        if r not in comp:
+            continue
+        bits, signed = C.REPRS[r]
+        maxn = min(65534, 2 ** bits)
+        lib += (C2_TEMPLATE.replace("@R@", r).replace("@U@", comp[r]).replace("@M@", str(M))
+                .replace("@LO@", str(C.rmin(r))).replace("@HI@", str(C.rmax(r)))
+                .replace("@ENTRY@", ex["entry"]).replace("@INC@", ex["inc"])
+                .replace("@IDXFNS@", "\n".join(fns)).replace("@ASSERTS@", "\n".join(asserts))
+                .replace("@UNWIND@", str(M + 2)).replace("@MAXN@", str(maxn)))
+    base = os.path.join(K.WORK, prop)
+    crate_dir = os.path.join(base, "crate_c2")
+    empty = RawModule("empty", "// (Engine C2: the harnesses live in lib.rs)\n")
+    E.write_crate(crate_dir, "vt_%s_c2" % prop.lower(), [empty], repo=REPO, extra_lib=lib, deps="")
+    ok, errors, dt = K.native_check(crate_dir, log=os.path.join(base, "prepass_c2.log"))
+    if not ok or errors:
+        rep.skipped.append({"module": "engine_c2", "what": "assembled index arithmetic does not compile (templates refactored): layout lemma skipped: " +
+                            "; ".join(sorted({e["message"] for e in errors}))[:300]})
+        return
+    rep.engines.append("C2")
+    ids = {}
+    for r in reprs:
+        if r not in comp:
+            continue
+        hm = RawModule("c2_" + r)
+        sym = ("the run layout itself: up to %d runs with symbolic start/end anywhere in %s (within the i64 domain), symbolic variant; index expressions: %s"
+               % (M, r, ", ".join("%s:%d" % (os.path.basename(t[0]), t[1]) for t in idx)))
+        cov = ["maximal number of runs", "large index"] + (["negative later run"] if C.REPRS[r][1] else [])
+        hm.harnesses.append(E.Harness("h_layout", "", M + 2, "layout_lemma", sym + "; <= min(65534, 2^bits) variants", cov))
+        if C.REPRS[r][0] > 8:
+            hm.harnesses.append(E.Harness("h_layout_small", "", M + 2, "layout_lemma_small", sym + "; <= 300 variants", cov))
+        for hid, hh in hm.harness_ids().items():
+            ids[hid] = (hm, hh)
+    jpath = os.path.join(base, "kani_c2.json")
+    rc, out, dt, data = K.cargo_kani(crate_dir, jpath, harness_timeout, jobs=min(16, len(ids)), harnesses=list(ids),
+                                     log=os.path.join(base, "kani_c2.log"))
+    if data is None:
+        rep.infra_errors.append("cargo kani (Engine C2) produced no result file; see " + os.path.join(base, "kani_c2.log"))
+        return
+    results = K.classify(data, out)
+    rep.bounds["engine_C2"] = {"runs": M, "reprs": [r for r in reprs if r in comp], "variants": "<= min(65534, 2^bits)",
+                               "fragments": {"entry": ex["entry"], "inc": ex["inc"], "index_expressions": [t[2] for t in idx]}}
+    rep.stubs.append("Engine C2: table entry / offset / index expressions are text fragments of the quote! templates assembled into straight-line Rust; a counterexample layout is confirmed by really deriving an enum with that layout")
+    # classification: passes go through collect(); failures are confirmed through the real derive
+    fails = {hid: r for hid, r in results.items() if r.status == "fail"}
+    oks = {hid: r for hid, r in results.items() if r.status != "fail"}
+    D.collect(rep, {h: v for h, v in ids.items() if h in oks or h not in results}, oks, out, crate_dir, harness_timeout, 0,
+              extra_lib=lib, deps="")
+    done = 0
+    small_failed = {hid.split("::")[0] for hid in fails if hid.endswith("_small")}
+    order = sorted(fails, key=lambda h: (0 if h.endswith("_small") or h.split("::")[0] in ("c2_u8", "c2_i8") else 1, h))
+    for hid in order:
+        r = fails[hid]
+        rep.discharged += 1
+        if done >= 2 or (not hid.endswith("_small") and hid.split("::")[0] in small_failed):
+            rep.extra.setdefault("candidates_not_replayed", []).append(hid)
+            continue
+        done += 1
+        confirm_layout(rep, crate_dir, hid, r, harness_timeout, files, M)
+
+
+def confirm_layout(rep, crate_dir, hid, r, harness_timeout, files, M):
+    """turn the solver's layout into a real declaration and run the derived functions"""
+    from . import corpus as C
+    from . import replay as RP
+    prop = rep.prop
+    repr_ = hid.split("::")[0][3:]
+    case = "layout_" + repr_ + ("_small" if hid.endswith("_small") else "")
+    tests, pout = RP.concrete_values(crate_dir, hid, harness_timeout, os.path.join(K.WORK, prop, "playback_%s.log" % case))
+    desc = "; ".join(sorted({c.get("description", "") for c in r.failures}))[:300]
+    entry = {"harness": hid, "kind": "layout_lemma", "status": "fail", "failed_checks": desc}
+    rep.harness_results[hid] = entry
+    if not tests:
+        entry["status"] = "unreproduced"
+        entry["reason"] = "no concrete layout printed"
+        rep.unreproduced.append(entry)
+        return
+    vals = tests[0]
+
+    def i64(v):
+        return int.from_bytes(bytes(v), "little", signed=True)
+    try:
+        m = int.from_bytes(bytes(vals[0]), "little")
+        runs = [(i64(vals[1 + 2 * j]), i64(vals[2 + 2 * j])) for j in range(m)]
+        jx = int.from_bytes(bytes(vals[1 + 2 * m]), "little")
+        x = i64(vals[2 + 2 * m])
+    except Exception as ex:
+        entry["status"] = "unreproduced"
+        entry["reason"] = "cannot decode layout: %s" % ex
+        rep.unreproduced.append(entry)
+        return
+    values = [v for (b, e) in runs for v in range(b, e + 1)]
+    entry["layout"] = {"repr": repr_, "runs": runs, "variant": x, "n": len(values)}
+    if len(values) > 2000 and any(v.key.get("kind") == "layout" for v in rep.violations):
+        entry["status"] = "candidate_not_replayed"
+        rep.extra.setdefault("candidates_not_replayed", []).append(hid)
+        return
+    if len(values) > 70000 or len(values) < 1:
+        entry["status"] = "unreproduced"
+        entry["reason"] = "layout too large to derive"
+        rep.unreproduced.append(entry)
+        return
+    d = C.mk("layout_" + repr_, repr_, values, "C2", order="sorted", implicit="max")
+    rank = values.index(x)
+    rdir = os.path.join(RP.REPLAYS, prop, case)
+    verdicts = {}
+    for itmode in (["table", "next_and_back"] if "range_fn" in files else ["-"]):
+        feats = {}
+        if "as_str_fn" in files:
+            feats["as_str"] = {"mode": "table"}
+        if "range_fn" in files:
+            feats["iter"] = {"mode": itmode}
+            feats["range"] = None
+            feats["MIN"] = None
+        b = C.Bundle("L", feats)
+        mod = E.Module(d, b, prop)
+        body = ["let v = SORTED[%d];" % rank]
+        if "as_str_fn" in files:
+            body.append('assert!(eq_str(E::as_str(v), NAMES[%d]), "as_str(v) is not v\'s name");' % rank)
+        if "range_fn" in files:
+            body.append('assert!(E::range(E::MIN, v).len() == %d, "range(MIN, v).len()");' % (rank + 1))
+            body.append('assert!(E::range(v, v).len() == 1, "range(v, v).len()");')
+            body.append('assert!(E::range(v, E::MIN).len() == %d, "range(v, MIN).len()");' % (1 if rank == 0 else 0))
+        mod.add(E.Harness("h_confirm", "\n".join(body), 4, "layout_confirm", "-", []))
+        RP.write_replay_crate(rdir, mod.name, mod.text(), mod.name + "::h_confirm", [], repo=REPO)
+        for prof in ("dev", "release"):
+            rc, out = RP.run_native(rdir, prof, timeout=1800)
+            verdicts[prof + "/" + itmode] = RP.verdict(rc, out)
+        if "reproduced" in verdicts.values():
+            break
+    what = ("index arithmetic wrong for a derivable layout: #[repr(%s)] runs %s, variant with discriminant %d (rank %d of %d): %s"
+            % (repr_, runs if len(runs) <= 6 else runs[:6], x, rank, len(values), desc))
+    if "reproduced" in verdicts.values():
+        entry["replay"] = rdir
+        pm = D._panic_message(rdir)
+        rep.violations.append(D.Violation(prop, {"kind": "layout", "repr": repr_, "runs": len(runs), "n": len(values), "check": desc},
+                                          what + (" -- native: " + pm if pm else ""), rdir, {"harness": hid}))
+    elif "builderror" in verdicts.values():
+        entry["status"] = "unreproduced"
+        entry["reason"] = "the counterexample layout could not be derived/compiled (%s)" % verdicts
+        rep.unreproduced.append(entry)
+    else:
+        entry["status"] = "unreproduced"
+        entry["reason"] = "the real derive handles this layout correctly (%s): the assembled lemma misrepresents the code" % verdicts
+        rep.unreproduced.append(entry)
